@@ -3,15 +3,36 @@
 let chunks_of s = if s = "-" then [] else List.map bytes_of_hex (String.split_on_char '.' s)
 let take n l = List.filteri (fun i _ -> i < n) l
 let four = n_of_int 4
-let transcript st steps =
+(* provided `Buf` methods are the bytes-crate defaults, i.e. loops over chunk()/advance() *)
+let take_n st n =
+  (* returns (bytes taken, new state) copying through chunk/advance like Buf::copy_to_bytes / copy_to_slice *)
+  let st = ref st and left = ref n and acc = ref [] and fail = ref false in
+  while !left > 0 && not !fail do
+    (match dg_chunk !st with
+     | Ok c when c <> [] ->
+         let k = min !left (List.length c) in
+         acc := !acc @ take k c;
+         (match dg_advance (n_of_int k) !st with Ok s -> st := s | _ -> fail := true);
+         left := !left - k
+     | _ -> fail := true)
+  done;
+  if !fail then None else Some (!acc, !st)
+let transcript st steps drain =
   let b = Buffer.create 64 in
   let st = ref st in
   let fail = ref None in
-  let rem () = match dg_remaining !st with Ok r -> string_of_n r | _ -> (fail := Some "panic"; "?") in
+  let remi () = match dg_remaining !st with Ok r -> int_of_n r | _ -> (fail := Some "panic"; 0) in
+  let rem () = "r" ^ string_of_int (remi ()) in
   List.iter (fun step ->
     if !fail = None then begin
+      Buffer.add_string b (rem () ^ ":");
+      if step = "g" then begin
+        if remi () = 0 then Buffer.add_string b "- " else
+        (match take_n !st 1 with
+         | Some (bs, s) -> Buffer.add_string b (hex_of_bytes bs ^ " "); st := s
+         | None -> fail := Some "panic")
+      end else begin
       let k = int_of_string (String.sub step 1 (String.length step - 1)) in
-      Buffer.add_string b ("r" ^ rem () ^ ":");
       if step.[0] = 'c' then begin
         match dg_chunk !st with
         | Ok c ->
@@ -19,21 +40,34 @@ let transcript st steps =
           Buffer.add_string b (hex_of_bytes (take n c) ^ " ");
           (match dg_advance (n_of_int n) !st with Ok s -> st := s | _ -> fail := Some "panic")
         | _ -> fail := Some "panic"
+      end else if step.[0] = 'b' then begin
+        let n = min k (remi ()) in
+        (match take_n !st n with
+         | Some (bs, s) -> Buffer.add_string b (hex_of_bytes bs ^ " "); st := s
+         | None -> fail := Some "panic")
       end else begin
         Buffer.add_string b ("skip" ^ string_of_int k ^ " ");
         (match dg_advance (n_of_int k) !st with Ok s -> st := s | _ -> fail := Some "panic")
-      end
+      end end
     end) steps;
-  (* drain *)
-  let guard = ref 100000 in
-  while !fail = None && (match dg_remaining !st with Ok r -> r <> N0 | _ -> false) && !guard > 0 do
-    decr guard;
-    (match dg_chunk !st with
-     | Ok c -> if c = [] then fail := Some "empty-chunk" else begin
-         Buffer.add_string b (hex_of_bytes c ^ " ");
-         (match dg_advance (n_of_int (List.length c)) !st with Ok s -> st := s | _ -> fail := Some "panic") end
-     | _ -> fail := Some "panic")
-  done;
+  (match drain with
+   | "B" | "P" ->
+     if !fail = None then begin
+       Buffer.add_string b (rem () ^ ":");
+       (match take_n !st (remi ()) with
+        | Some (bs, s) -> Buffer.add_string b (hex_of_bytes bs ^ " "); st := s; Buffer.add_string b (rem ())
+        | None -> fail := Some "panic")
+     end
+   | _ ->
+     let guard = ref 100000 in
+     while !fail = None && (match dg_remaining !st with Ok r -> r <> N0 | _ -> false) && !guard > 0 do
+       decr guard;
+       (match dg_chunk !st with
+        | Ok c -> if c = [] then fail := Some "empty-chunk" else begin
+            Buffer.add_string b (hex_of_bytes c ^ " ");
+            (match dg_advance (n_of_int (List.length c)) !st with Ok s -> st := s | _ -> fail := Some "panic") end
+        | _ -> fail := Some "panic")
+     done);
   match !fail with Some f -> f | None -> "ok " ^ String.trim (Buffer.contents b)
 (* the spec side: the same transcript computed on the flat RFC bytes with the chunk boundaries
    (header | payload chunks) the Buf contract allows to be arbitrary: we only compare concatenations,
@@ -42,7 +76,8 @@ let rec handle ws = match ws with
   | ["dg.decc"; chunks] ->
       let flat = String.concat "" (List.filter (fun c -> c <> "-") (String.split_on_char '.' chunks)) in
       handle ["dg.dec"; (if flat = "" then "-" else flat)]
-  | ["dg.enc"; sid; pl; steps] ->
+  | ["dg.enc"; sid; pl; steps] -> handle ["dg.enc"; sid; pl; steps; "d"]
+  | ["dg.enc"; sid; pl; steps; drain] ->
       let sid = n_of_string sid in
       let p = chunks_of pl in
       let steps = if steps = "-" then [] else String.split_on_char ',' steps in
@@ -50,7 +85,7 @@ let rec handle ws = match ws with
         | Panic _ -> "panic"
         | Err _ -> "err"
         | Ok (s, p) -> (match dg_encode s p with
-            | Ok st -> transcript st steps
+            | Ok st -> transcript st steps drain
             | _ -> "panic")) in
       let s = if snd (N.div_eucl sid four) <> N0 then "panic" else "flat " ^ hex_of_bytes (rfc_dg_bytes sid (List.concat p)) in
       m ^ " | " ^ s
